@@ -54,7 +54,7 @@ class C09(PoolCheck):
     LEVEL = 'exploration'
     GROUP = 1
     CASE_TIMEOUT = 180.0
-    FAMILIES = ('multi', 'multi2', 'chameleon', 'xsitype', 'keys', 'subst', 'fixed', 'ids', 'assert11', 'wild', 'ondemand')
+    FAMILIES = ('multi', 'multi2', 'chameleon', 'xsitype', 'keys', 'subst', 'fixed', 'ids', 'assert11', 'wild', 'ondemand', 'laxbuilt', 'grouped', 'simple')
     RULE = ("case = (family, assembly variant [canonical | list constructor with a permuted order of the extra "
             "sources | build=False + add_schema/import_schema/include_schema in a permuted order + build()], then a "
             "seeded sequence of lifecycle steps [use an operation of the C10 menu, build() again, maps.clear()+build(), "
@@ -121,8 +121,10 @@ class C09(PoolCheck):
         # (what a used schema then answers is C10's question), the probes meet them on the stored/restored object
         usable = [i for i, d in enumerate(e.docs) if not hasattr(fam, 'peer_pages') or d.name.startswith('od-valid-plain')
                   or d.name == 'od-plain-baditem']
+        # (a schema built with validation='lax' accepts an unbuildable namespace instead of rolling it back)
+        steps_menu = [x for x in STEPS if x != 'failed_load_namespace' or fam.name != 'laxbuilt']
         for _ in range(rng.randrange(0, 6)):
-            st = rng.choice(STEPS)
+            st = rng.choice(steps_menu)
             if st == 'use':
                 op = dict(rng.choice(m))
                 op['doc'] = rng.choice(usable)
